@@ -260,7 +260,7 @@ end
 /-- render template `name` of the file with the given environment (top-level call: no children) -/
 def renderTop (input : GoStr) (name : GoStr) (env : Env) : Except String GoStr :=
   let (toks, _) := lexBytes input
-  let (err, tree) := parseToks toks
+  let (err, tree, _) := parseToks toks
   match err with
   | some e => .error s!"parse error {e.line}:{e.col}"
   | none =>
